@@ -823,12 +823,12 @@ func instrDominates(a, b ssa.Instruction) bool {
 // Backward slices
 
 type sliceAtoms struct {
-	Fields  map[*types.Var]bool // struct fields read
-	Calls   map[string]bool     // callee short names
-	Params  map[*ssa.Parameter]bool
-	Globals map[string]bool
-	Consts  []string
-	Builtin map[string]bool
+	Fields   map[*types.Var]bool // struct fields read
+	Calls    map[string]bool     // callee short names
+	Params   map[*ssa.Parameter]bool
+	Globals  map[string]bool
+	Consts   []string
+	Builtin  map[string]bool
 	FreeVars map[*ssa.FreeVar]bool
 }
 
@@ -1061,4 +1061,10 @@ func (a *sliceAtoms) String() string {
 		parts = append(parts, "const "+k)
 	}
 	return "[" + strings.Join(parts, " ") + "]"
+}
+
+// paramTyped: the parameter's type prints (module-relative) as typeStr. Rules select
+// parameters by type and position, never by name: a rename does not change behaviour.
+func paramTyped(p *ssa.Parameter, typeStr string) bool {
+	return short(p.Type().String()) == typeStr
 }
